@@ -114,13 +114,15 @@ def calTags (p : Prog) : List String :=
   (if ms.any (fun c => c.identifier.target.isSome) then ["mcal-target"] else []) ++
   [s!"ncal{min cs.length 4}", s!"nmcal{min ms.length 3}", s!"nbody{min p.instructions.length 5}"]
 
-/-- depth of the expansion of one instruction (0 = no match), by the model -/
-def depthOf (E : Env String) (cals : Cals) : Nat → Instruction → Nat
-  | 0, _ => 0
-  | fuel + 1, i =>
-    match oneStep E codeSubst cals i with
-    | none => 0
-    | some (body, _) => 1 + (body.map (depthOf E cals fuel)).foldl max 0
+/-- depth of the expansion of one instruction (0 = no match), by the model; a revisit on the current path
+(the recursion error) is not followed -/
+def depthOf (E : Env String) (cals : Cals) : Nat → List String → Instruction → Nat
+  | 0, _, _ => 0
+  | fuel + 1, path, i =>
+    if path.contains (keyText i) then 0
+    else match oneStep E codeSubst cals i with
+      | none => 0
+      | some (body, _) => 1 + (body.map (depthOf E cals fuel (keyText i :: path))).foldl max 0
 
 def outKindTags (p : Prog) : List String :=
   let kinds := p.instructions.map Instruction.variantName
@@ -140,7 +142,7 @@ def handleProg (is : List Instruction) (out : Sexp) : CaseResult :=
   let agree := mOut == out
   let liteDiffers := modelProg envLite codeSubst is != mOut
   let covered := coveredB p.cals
-  let maxDepth := (p.instructions.map (depthOf env p.cals 64)).foldl max 0
+  let maxDepth := (p.instructions.map (depthOf env p.cals 6 [])).foldl max 0
   -- the specification evaluated on the implementation's output
   let specTags : List String × Bool × Bool :=
     match out with
